@@ -24,6 +24,7 @@ RULE = (
     "InvalidConfiguration and no external command (sbatch) was attempted. non-trivial = >= 2 jobs, >= 1 "
     "dependency, >= 1 optional field set (valid) or any injected invalidity; distinct by hash of the case"
 )
+RULE += " Later additions (DESIGN.md 9): " + 'blockers are set through the constructor, by attribute assignment on the live job, through set_blocking_jobs(), or both in sequence; groups are compared field by field (attribute access) with the models built from the generated values; the first file is rewritten with a second version of the configuration and loaded again.'
 ASSUMPTIONS = [
     "JSON files only (the statement names JSON); names carry no surrounding blanks (the models strip them)",
     "uniqueness is over effective names (an unnamed job is called by its job id)",
